@@ -1,0 +1,46 @@
+//go:build verif
+
+// Contracts for package classdef, checked by /verif/engine (gvc).  This file
+// contains comments only; it is compiled only with the "verif" build tag.
+package classdef
+
+// getEncInfo: smallest and largest glyph of the table and the sizes of the two
+// encodings.  Format 1 (OpenType ClassDefFormat1) is 6 bytes plus one 16-bit
+// class per glyph in [minGid, maxGid]; format 2 is 4 bytes plus 6 per range.
+//@ func (info Table) getEncInfo() (res *encInfo)   props: C08 C16
+//@   requires len(info) >= 1
+//@   ensures res != nil && fresh(res) && res.minGid <= res.maxGid && has(info, res.minGid) && has(info, res.maxGid)
+//@   ensures forall g uint16 :: has(info, g) ==> res.minGid <= g && g <= res.maxGid
+//@   ensures res.maxGid - res.minGid + 1 <= 65535 ==> res.format1Size == 6 + 2*(res.maxGid - res.minGid + 1)
+//@   ensures res.maxGid - res.minGid + 1 > 65535 ==> res.format1Size > res.format2Size   // the 16-bit glyph count of format 1 cannot hold 65536
+//@   ensures res.format2Size >= 4 && (res.format2Size - 4) % 6 == 0 && res.format2Size <= 4 + 6*65536
+//@   modifies nothing
+//@   loop 0
+//@     invariant forall g uint16 :: seen(info, g) ==> minGid <= g && g <= maxGid
+//@     invariant nseen(info) >= 1 ==> minGid <= maxGid && has(info, minGid) && has(info, maxGid)
+//@     invariant nseen(info) == 0 ==> minGid == 65535 && maxGid == 0
+//@   loop 1
+//@     invariant minGid <= i && i <= maxGid + 1 && 0 <= segCount && segCount + ite(segStart >= 0, 1, 0) <= i - minGid && segStart >= -1 && segStart < i
+//@     decreases maxGid + 1 - i
+
+// Append: the number of bytes appended is the size getEncInfo announced for
+// the format that is written (declared size == emitted size).
+//@ func (info Table) Append(buf []byte) (out []byte)   props: C08
+//@   encoder
+//@   may_panic   // a table that needs more than 65535 ranges cannot be written
+//@   let b = len(old(buf)); start = be16(out, b + 2); cnt = be16(out, b + 4)
+//@   ensures len(out) >= b + 4 && forall k int :: 0 <= k && k < b ==> out[k] == old(buf[k])
+//@   ensures len(info) >= 1 && out[b+1] == 1 ==> len(out) == b + 6 + 2*cnt
+//@   ensures len(info) >= 1 && out[b+1] == 1 ==> forall g uint16 :: has(info, g) ==> start <= g && g - start < cnt && be16(out, b + 6 + 2*(g - start)) == info[g]
+//@   return_assert len(info) >= 1 && encInfo.format1Size <= encInfo.format2Size ==> len(out) == len(old(buf)) + encInfo.format1Size
+//@   loop 0
+//@     invariant 0 <= i && i <= count && len(buf) == len(old(buf)) + 6 + 2*i && encInfo != nil
+//@     invariant forall k int :: 0 <= k && k < len(old(buf)) ==> buf[k] == old(buf[k])
+//@     invariant buf[len(old(buf))+1] == 1 && be16(buf, len(old(buf)) + 2) == encInfo.minGid && be16(buf, len(old(buf)) + 4) == count
+//@     invariant forall g uint16 :: encInfo.minGid <= g && g < encInfo.minGid + i ==> be16(buf, len(old(buf)) + 6 + 2*(g - encInfo.minGid)) == info[g]
+//@     decreases count - i
+//@   loop 1
+//@     invariant encInfo != nil && encInfo.minGid <= i && i <= encInfo.maxGid + 1 && segStart >= -1 && segStart < i
+//@     invariant len(buf) >= len(old(buf)) + 4 && buf[len(old(buf))+1] == 2
+//@     invariant forall k int :: 0 <= k && k < len(old(buf)) ==> buf[k] == old(buf[k])
+//@     decreases encInfo.maxGid + 1 - i
